@@ -639,7 +639,9 @@ def run(ctx, out):
                 if code not in (INVALID_PARAMS, INTERNAL_ERROR):
                     problems.append(("property", "refusal without a JSON-RPC error object", ci, {"op": c["lines"][0], "impl": io[0]}))
                 if mo is not None and mo[0].startswith("err") and REASONS.get(mo[0].split()[1]) != reason:
-                    out.notes.append("error text changed: model kind %s, implementation says %r" % (mo[0].split()[1], reason))
+                    note = "error text changed: model kind %s, implementation says %r" % (mo[0].split()[1], reason)
+                    if note not in out.notes:
+                        out.notes.append(note)
             if cls[0] == "refuse":
                 bump(hist["refuse_reason_property"], cls[1])
                 evaluations += 1
@@ -690,6 +692,8 @@ def run(ctx, out):
     # ---- report
     reported = 0
     seen_what = {}
+    prio = {"property": 0, "assumption": 1, "model": 2, "machinery": 3}
+    problems.sort(key=lambda pr: (prio.get(pr[0], 9), len(cases[pr[2]]["lines"][0])))
     for kind, what, ci, detail in problems:
         key = (kind, what.split(":")[0][:60])
         seen_what[key] = seen_what.get(key, 0) + 1
